@@ -207,7 +207,8 @@ fn gen_hproj(rng: &mut Rng) -> HProj {
         if rng.chance(1, 8) && !earlier_any.is_empty() { st.val.push(earlier_any[rng.below(earlier_any.len())].clone()); }
         steps.push(st);
     }
-    HProj { steps, generator: rng.chance(1, 4), rule_suffix: 0, comment: 0, defaults: vec![] }
+    let defaults = if rng.chance(1, 3) { vec![format!("o{}", rng.below(n))] } else { vec![] };
+    HProj { steps, generator: rng.chance(1, 4), rule_suffix: 0, comment: 0, defaults }
 }
 
 fn src_content(rng: &mut Rng, version: usize) -> Vec<u8> {
@@ -305,7 +306,7 @@ pub fn run(ctx: &mut Ctx) {
                 if rng.chance(1, 3) { let outs = proj.all_outs(); if !outs.is_empty() { targets.push(outs[rng.below(outs.len())].clone()); } }
                 if rng.chance(1, 30) { targets.push("./o0".into()); }
                 ops.push(Op::I { par: rng.range(1, 3), k: if rng.chance(1, 3) { Some(rng.range(1, 2)) } else { None }, adopt: rng.chance(1, 30), targets });
-                if rng.chance(1, 4) && !last_was_invoke {
+                if rng.chance(1, 2) && !last_was_invoke {
                     // immediately again: must be a no-op after a success
                     ops.push(Op::I { par: 2, k: None, adopt: false, targets: vec![] });
                 }
@@ -323,7 +324,12 @@ pub fn run(ctx: &mut Ctx) {
             else if r < 82 { let outs = proj.all_outs(); if !outs.is_empty() { ops.push(Op::W(outs[rng.below(outs.len())].clone(), clock, b"tampered".to_vec())); } }
             else {
                 // manifest edit
-                match rng.below(6) {
+                match rng.below(7) {
+                    6 => {
+                        // change, add or drop the `default` statement
+                        let outs: Vec<String> = proj.steps.iter().map(|s| s.outs[0].clone()).collect();
+                        proj.defaults = if rng.chance(1, 3) || outs.is_empty() { vec![] } else { vec![outs[rng.below(outs.len())].clone()] };
+                    }
                     0 => { proj.comment += 1; }
                     1 => { proj.rule_suffix += 1; }
                     2 => { if proj.steps.len() > 1 { let a = rng.below(proj.steps.len() - 1); proj.steps.swap(a, a + 1);
@@ -331,6 +337,7 @@ pub fn run(ctx: &mut Ctx) {
                           } }
                     3 => { let i = rng.below(proj.steps.len()); proj.steps[i].flag = format!("-g{}", version); }
                     4 => { if proj.steps.len() > 2 { let i = rng.below(proj.steps.len()); let gone = proj.steps.remove(i);
+                            proj.defaults.retain(|d| !gone.outs.contains(d));
                             for st in proj.steps.iter_mut() { for l in [&mut st.expl, &mut st.impl_, &mut st.oo, &mut st.val] { for x in l.iter_mut() { if gone.outs.contains(x) { *x = "s0".into(); } } } } } }
                     _ => { let i = rng.below(proj.steps.len()); if proj.steps[i].rule != "phony" { proj.steps[i].impl_.push(format!("s{}", rng.below(NSRC))); } }
                 }
